@@ -199,7 +199,8 @@ func Walk(v IVisitor, n INode) {
 
 		Walk(v, n.Extends)
 
-		for _, item := range n.List {
+		for i := range n.List {
+			item := &n.List[i] // not a copy, so that the visitor receives the field of the tree
 			if item.StaticBlock != nil {
 				Walk(v, item.StaticBlock)
 			} else if item.Method != nil {
